@@ -5,6 +5,7 @@ cd /verif
 for P in "$@"; do
   for d in seeded/$P-m?; do
     M=${d##*-}
+    if grep -q '"retired_at"' $d/meta.json; then echo "$P $M retired"; continue; fi
     cp $d/patch.diff /tmp/wt_$P/_mutants/$M.diff
     CHECKS=$(python3 -c "
 import json;m=json.load(open('$d/meta.json'));cs=[x['check'] for x in m.get('detected_by',[])] or ['$P']
